@@ -2,7 +2,7 @@ use std::io::{self, Read};
 
 use noodles_vcf::{self as vcf, variant::RecordBuf};
 
-use crate::io::reader::num::read_u32_le;
+use crate::io::reader::{num::read_u32_le, read_exact_to_vec};
 
 pub(super) fn read_record_buf<R>(
     reader: &mut R,
@@ -25,13 +25,11 @@ where
         usize::try_from(n).map_err(|e| io::Error::new(io::ErrorKind::InvalidData, e))
     })?;
 
-    buf.resize(l_shared, 0);
-    reader.read_exact(buf)?;
+    read_exact_to_vec(reader, buf, l_shared)?;
     let mut src = &buf[..];
     let (n_fmt, n_sample) = read_site(&mut src, header, record)?;
 
-    buf.resize(l_indiv, 0);
-    reader.read_exact(buf)?;
+    read_exact_to_vec(reader, buf, l_indiv)?;
     let mut src = &buf[..];
 
     *record.samples_mut() = read_samples(&mut src, header, n_sample, n_fmt)
